@@ -12,7 +12,12 @@
 (*   that exists in the output directory) | xdir "xd" (an existing         *)
 (*   directory) | bslash "bs\..\..\w" | victim "victim" (the name of the   *)
 (*   file placed NEXT TO the output directory) | a, b, pwn "pwned.txt"     *)
-(*   (link vocabulary) | G (the absolute path of the guard directory).     *)
+(*   (link vocabulary) | G (the absolute path of the guard directory) |    *)
+(*   sibling names that have the designated directory's base name "out"    *)
+(*   as a string prefix: sib2 "out2", sibbak "out.bak", sibdir "out-evil", *)
+(*   sibtxt "output.txt" (they defeat a containment test written as a      *)
+(*   string prefix without a separator; reached through one "..", also     *)
+(*   behind "name/..": SiblingSegs).                                       *)
 (*                                                                         *)
 (* Mirrors (operator <- code):                                             *)
 (*   Res / CleanRooted / CleanRel / Join  <- path.Clean, filepath.Join     *)
@@ -37,6 +42,8 @@ EXTENDS Sequences, Integers, FiniteSets, TLC
 CONSTANTS TitleClean,       \* "rooted" = path.Clean("/"+title) (the code) | "stripdots" = Clean, then strip leading "../"
           LinkPolicy,       \* "skip" = link entries are not materialised (the code) | "lexical" = created when the
                             \* target stays lexically inside | "raw" = created unconditionally
+          ExtractGuard,     \* "reroot" = filepath.Join(path, Clean("/"+name)) (the code) | "strprefix" = Join(path, name) and
+                            \* refuse unless strings.HasPrefix(result, path) - no separator (seeded C20-4)
           DeleteValidates,  \* TRUE = ocidir.ManifestDelete validates the reference digest first (the code since fix
                             \* 3b8373e; default of every configuration) | FALSE = the variant found originally (S15):
                             \* no Validate when the caller supplies the manifest (kept as a switch: C20_mc_s15.cfg,
@@ -44,7 +51,8 @@ CONSTANTS TitleClean,       \* "rooted" = path.Clean("/"+title) (the code) | "st
           MaxFull, MaxCore  \* hostile names: all class sequences up to MaxFull, core classes up to MaxCore
 
 Special == {"dotdot", "dot", "empty"}
-Ordinary == {"name", "long", "nul", "xfile", "xdir", "bslash", "victim"}
+SibClasses == {"sib2", "sibbak", "sibdir", "sibtxt"}          \* names with the base name of Out as a proper string prefix
+Ordinary == {"name", "long", "nul", "xfile", "xdir", "bslash", "victim"}   \* (the alphabet of the general name space)
 SegClasses == Ordinary \cup Special
 CoreClasses == {"name", "dotdot", "dot", "empty", "victim"}
 
@@ -82,8 +90,8 @@ Src == <<"G", "src">>                                      \* source layout (dec
 \* model file system: set of nodes [p, k, t, abs]; k in dir | file | sym
 Node(p, k) == [p |-> p, k |-> k, t |-> <<>>, abs |-> 0]
 Sym(p, t, abs) == [p |-> p, k |-> "sym", t |-> t, abs |-> abs]
-FS0 == {Node(<<>>, "dir"), Node(Guard, "dir"), Node(Out, "dir"), Node(Out \o <<"xf">>, "file"),
-        Node(Out \o <<"xd">>, "dir"), Node(Victim, "file")}
+FS0 == {Node(<<>>, "dir"), Node(Guard, "dir"), Node(Out, "dir"), Node(Out \o <<"xfile">>, "file"),
+        Node(Out \o <<"xdir">>, "dir"), Node(Victim, "file")}
 Has(fs, p) == \E n \in fs : n.p = p
 Get(fs, p) == CHOOSE n \in fs : n.p = p
 IsSym(fs, p) == Has(fs, p) /\ Get(fs, p).k = "sym"
@@ -108,7 +116,12 @@ PhysNoFollow(fs, p) == IF p = <<>> THEN p ELSE Append(Phys(fs, <<>>, Front(p), F
 
 \* ------------------------------------------------------------------ hostile names
 SeqsOver(alpha, lo, hi) == UNION {[1..k -> alpha] : k \in lo..hi}
-NameSegs == SeqsOver(SegClasses, 0, MaxFull) \cup SeqsOver(CoreClasses, MaxFull + 1, MaxCore)
+\* siblings of the designated directory: one ".." (plain, behind "./", behind "name/..", behind "xd/..") then the
+\* sibling, optionally a file below it
+SibPrefixes == {<<"dotdot">>, <<"dot", "dotdot">>, <<"name", "dotdot", "dotdot">>, <<"xdir", "dotdot", "dotdot">>}
+SiblingSegs == {pre \o <<c>> \o post : pre \in SibPrefixes, c \in SibClasses, post \in {<<>>, <<"name">>}}
+IsSibling(segs) == \E i \in 1..Len(segs) : segs[i] \in SibClasses
+NameSegs == SeqsOver(SegClasses, 0, MaxFull) \cup SeqsOver(CoreClasses, MaxFull + 1, MaxCore) \cup SiblingSegs
 HostileNames == [segs : NameSegs, lead : {0, 1}, trail : {0, 1}]
 \* the assembled string is  (lead ? "/" : "") ++ join(segs, "/") ++ (trail ? "/" : "")
 StrEmpty(x) == x.lead = 0 /\ x.trail = 0 /\ (x.segs = <<>> \/ x.segs = <<"empty">>)
@@ -139,6 +152,14 @@ ArtPlan(x, annot, strip) ==
 
 \* ------------------------------------------------------------------ archive.Extract
 ExtractTarget(base, n) == Join(base, CleanRooted(n.segs))  \* filepath.Join(path, filepath.Clean("/"+hdr.Name))
+\* strings.HasPrefix(a, b) on single names, as far as the classes know: equal, or a sibling class against "out"
+NameHasPrefix(a, b) == a = b \/ (b = "out" /\ a \in SibClasses)
+StrPrefixInside(base, p) == /\ base # <<>> /\ Len(p) >= Len(base) /\ SubSeq(p, 1, Len(base) - 1) = Front(base)
+                            /\ NameHasPrefix(p[Len(base)], Last(base))
+\* the target of an entry and whether the entry is accepted (a refused entry makes Extract return: halt)
+EntryTarget(base, segs) ==
+  IF ExtractGuard = "reroot" THEN [ok |-> TRUE, fn |-> ExtractTarget(base, [segs |-> segs])]
+  ELSE LET fn == Join(base, segs) IN [ok |-> StrPrefixInside(base, fn), fn |-> fn]
 \* would a lexical guard accept the link?  (target resolved relative to the link's directory stays under base)
 LinkDest(base, fn, e) == IF e.tl = 1 THEN e.t
                          ELSE IF e.k = "sym" THEN Res(Front(fn), e.t, FALSE)     \* relative to the link's directory
@@ -149,11 +170,10 @@ Materialise(base, fn, e) ==
     [] LinkPolicy = "raw" -> TRUE
     [] LinkPolicy = "lexical" -> LexLinkOk(base, fn, e)
 
-\* one entry applied to the model file system: result [fs, touched] (touched = physical paths created / written)
+\* one entry applied to the model file system: result [fs, touched, halt] (touched = physical paths created / written)
 DirsOk(fs, p) == \A q \in Prefixes(p) : Has(fs, q) => IsDir(fs, q)
-ApplyEntry(fs, base, e) ==
-  LET fn == ExtractTarget(base, [segs |-> e.n])
-  IN CASE e.k = "dir" ->                                   \* os.MkdirAll(fn)
+ApplyAccepted(fs, base, e, fn) ==
+     CASE e.k = "dir" ->                                   \* os.MkdirAll(fn)
             LET p == PhysFollow(fs, fn)
                 new == {q \in Prefixes(p) : ~Has(fs, q)} IN
             IF DirsOk(fs, p) THEN [fs |-> fs \cup {Node(q, "dir") : q \in new}, touched |-> new]
@@ -176,6 +196,10 @@ ApplyEntry(fs, base, e) ==
             IF Materialise(base, fn, e) /\ p # <<>> /\ IsDir(fs, Front(p)) /\ ~Has(fs, p) /\ Has(fs, tp) /\ Get(fs, tp).k = "file"
             THEN [fs |-> Put(fs, [p |-> p, k |-> "hard", t |-> tp, abs |-> 0]), touched |-> {p, tp}]   \* the target's inode gets a new name
             ELSE [fs |-> fs, touched |-> {}]
+ApplyEntry(fs, base, e) ==
+  LET t == EntryTarget(base, e.n) IN
+  IF t.ok THEN ApplyAccepted(fs, base, e, t.fn) @@ [halt |-> FALSE]
+  ELSE [fs |-> fs, touched |-> {}, halt |-> TRUE]          \* "tar entry is outside of the extract path": Extract returns
 
 \* ------------------------------------------------------------------ OCI layout (scheme/ocidir)
 \* digest classes: [c, alg, enc, colon, valid]   alg / enc as segment sequences of the text before / after ":"
@@ -258,24 +282,30 @@ Ent(k, n, t, tl) == [k |-> k, n |-> n, t |-> t, tl |-> tl]
 
 \* (i) artifact get: title x annotation x --strip-dirs; the layer is a fixed small tar when unpacked
 LayerTar == << Ent("dir", <<"d">>, <<>>, 0), Ent("reg", <<"d", "f">>, <<>>, 0), Ent("reg", <<"victim">>, <<>>, 0),
-               Ent("reg", <<"pwn">>, <<>>, 0), Ent("reg", <<"dotdot", "victim">>, <<>>, 0) >>
+               Ent("reg", <<"pwn">>, <<>>, 0),
+               Ent("reg", <<"dotdot", "sib2">>, <<>>, 0), Ent("dir", <<"dotdot", "sibdir">>, <<>>, 0),       \* siblings of the
+               Ent("reg", <<"dotdot", "sibdir", "f">>, <<>>, 0), Ent("reg", <<"d", "dotdot", "dotdot", "sibtxt">>, <<>>, 0),  \* extract dir
+               Ent("reg", <<"dotdot", "victim">>, <<>>, 0) >>
 ArtScenarios == {Scn("art", n, u, s, <<>>, "-", "-", "-", "-", 0) : n \in HostileNames, u \in {0, 1}, s \in {0, 1}}
 
 \* (ii) archive.Extract: one hostile entry (directory or file; for a file its parent directory goes first) ...
 TarScenarios ==
   {Scn("tar", n, 0, 0, IF k = "dir" THEN <<Ent("dir", n.segs, <<>>, 0)>>
                        ELSE <<Ent("dir", IF n.segs = <<>> THEN <<>> ELSE Front(n.segs), <<>>, 0), Ent("reg", n.segs, <<>>, 0)>>,
-       "-", "-", "-", "-", 0) : n \in HostileNames, k \in {"dir", "reg"}}
+       "-", "-", "-", "-", 0) : n \in HostileNames, k \in {"dir", "reg"}} \cup
+  \* a file entry alone (no parent directory entry that an entry guard could trip over first)
+  {Scn("tar", n, 0, 0, <<Ent("reg", n.segs, <<>>, 0)>>, "-", "-", "-", "-", 0) :
+     n \in {m \in HostileNames : (Len(m.segs) \in 1..2 \/ IsSibling(m.segs)) /\ m.trail = 0}}
 \* ... and link archives: up to two link entries followed by a file or directory written through them
-LinkNames == {<<"a">>, <<"b">>, <<"xd", "a">>}
+LinkNames == {<<"a">>, <<"b">>, <<"xdir", "a">>}
 LinkTargets == {<<"dot">>, <<"dotdot">>, <<"a", "dotdot">>, <<"b", "dotdot">>, <<"dotdot", "victim">>, <<"dotdot", "dotdot">>,
-                <<"xd", "dotdot", "dotdot">>, <<"victim">>, <<"xd">>}
+                <<"xdir", "dotdot", "dotdot">>, <<"victim">>, <<"xdir">>}
 AbsTargets == {<<"G">>, <<"G", "victim">>}
 Links == {Ent(k, n, t, 0) : k \in {"sym", "hard"}, n \in LinkNames, t \in LinkTargets} \cup
          {Ent(k, n, t, 1) : k \in {"sym", "hard"}, n \in LinkNames, t \in AbsTargets}
 Payloads == {Ent("reg", <<"a", "pwn">>, <<>>, 0), Ent("reg", <<"b", "pwn">>, <<>>, 0), Ent("reg", <<"b", "victim">>, <<>>, 0),
              Ent("reg", <<"a">>, <<>>, 0), Ent("reg", <<"b">>, <<>>, 0), Ent("dir", <<"b", "pwn">>, <<>>, 0),
-             Ent("reg", <<"xd", "a", "pwn">>, <<>>, 0), Ent("reg", <<"a", "victim">>, <<>>, 0)}
+             Ent("reg", <<"xdir", "a", "pwn">>, <<>>, 0), Ent("reg", <<"a", "victim">>, <<>>, 0)}
 LinkArchives == {<<l, p>> : l \in Links, p \in Payloads} \cup
                 {<<l1, l2, p>> : l1 \in {l \in Links : l.k = "sym"}, l2 \in {l \in Links : l.k = "sym" /\ l.tl = 0}, p \in Payloads}
 LinkScenarios == {Scn("lnk", NoName, 0, 0, a, "-", "-", "-", "-", 0) : a \in LinkArchives}
@@ -283,7 +313,7 @@ LinkScenarios == {Scn("lnk", NoName, 0, 0, a, "-", "-", "-", "-", 0) : a \in Lin
 \* (iii) ImageImport: the hostile name appears as an extra entry, as a blob path of the docker manifest.json, or as
 \* the name under which a referenced blob is stored in the tar
 ImportPlaces == {"extra_reg", "extra_dir", "extra_sym", "extra_hard", "docker_config", "docker_layer", "oci_blobname"}
-ImpNames == {n \in HostileNames : Len(n.segs) <= 2}
+ImpNames == {n \in HostileNames : Len(n.segs) <= 2 \/ IsSibling(n.segs)}
 ImportScenarios == {Scn("imp", n, 0, 0, <<>>, "ImageImport", "-", p, "-", 0) : n \in ImpNames, p \in ImportPlaces} \cup
                    {Scn("imp", NoName, 0, 0, <<>>, "ImageImport", d.c, p, "-", 0) : d \in DigestClasses, p \in {"oci_index", "oci_layer", "oci_child"}}
 
@@ -307,7 +337,8 @@ InSpace(x, eps) == \/ "art" \in eps /\ x \in ArtScenarios
 RECURSIVE RunEntries(_, _, _, _)
 RunEntries(fs, base, ents, acc) ==
   IF ents = <<>> THEN acc
-  ELSE LET r == ApplyEntry(fs, base, Head(ents)) IN RunEntries(r.fs, base, Tail(ents), acc \cup r.touched)
+  ELSE LET r == ApplyEntry(fs, base, Head(ents)) IN
+       IF r.halt THEN acc \cup r.touched ELSE RunEntries(r.fs, base, Tail(ents), acc \cup r.touched)
 ArtFS(pl) == FS0 \cup {Node(q, "dir") : q \in {q \in Prefixes(pl.mkdir) : ~Has(FS0, q)}}
 ArtTouches(s) ==
   LET pl == ArtPlan([segs |-> s.segs, lead |-> s.lead, trail |-> s.trail], s.unpack, s.strip)
